@@ -66,10 +66,10 @@ fn("hypercorn.trio.task_group:_handle",
 # task per call; C17: the WSGI application is reached only through sync_spawn, i.e. off the loop)
 SPAWN_PARAMS = {"app": "opaque", "config": "obj hypercorn.config:Config", "scope": "opaque", "send": "opaque"}
 cls("hypercorn.asyncio.task_group:TaskGroup", fields={"_loop": "opaque", "_task_group": "obj asyncio:TaskGroup"})
-cls("hypercorn.trio.task_group:TaskGroup", fields={"_nursery": "opt obj trio:Nursery", "_nursery_manager": "opaque"},
+cls("hypercorn.trio.task_group:TaskGroup", fields={"_nursery": "opt obj trio:Nursery", "_nursery_manager": "opt obj trio:NurseryManager"},
     # assumed (structural): a task group is only used by tasks that run inside its `async with`
     # block, and __aexit__ waits for all of them, so an entered group stays entered for its users
-    rely=[("TaskGroup.rely.entered-stays", "implies(old(self._nursery) is not None, self._nursery is not None)", "C07,C16")])
+    rely=[("TaskGroup.rely.entered-stays", "implies(old(self._nursery) is not None, self._nursery is not None) and implies(old(self._nursery_manager) is not None, self._nursery_manager is not None)", "C07,C16")])
 for TG in ("hypercorn.asyncio.task_group:TaskGroup", "hypercorn.trio.task_group:TaskGroup"):
     fn(TG + ".spawn_app", params=SPAWN_PARAMS, effect="atomic", returns=None,
        requires=[("spawn_app.pre.entered", "True" if "asyncio" in TG else "self._nursery is not None")],
